@@ -3,7 +3,7 @@
 # The preemption is forced deterministically with a line trace: when the recording thread is about to execute the write, a second thread
 # runs tr.discard_recording() to completion.  exit 0 = the intercepted call still behaves like the undecorated code, 1 = it does not.
 import sys, threading
-sys.path.insert(0, '/repo') if '/repo' not in sys.path else None
+sys.path.insert(0, __import__('os').environ.get('PYVC_REPO', '/repo'))
 from playback.tape_recorder import TapeRecorder
 from playback.tape_cassettes.in_memory.in_memory_tape_cassette import InMemoryTapeCassette
 
